@@ -1,15 +1,77 @@
 import WK.Theorems.C22
-import WK.Gen.C22
 namespace WK.C22
-open WK.Gen.C22
 
-theorem t_send (v : Nat) (p : Send) :
-    encSend v p = interpEnc ⟨v, false, p.val⟩ enc_send ∧
-    sizeSend v p = interpSize ⟨v, false, p.val⟩ size_send ∧
-    dec_send = enc_send := by
-  refine ⟨?_, ?_, by decide⟩
-  · simp [encSend, interpEnc, enc_send, evalGuard, evalAtom, writeItem, Send.val, Val.nat, Val.byt, wIf, streamOn, topicOn, and_assoc]
-    first | rfl | congr
-  · simp [sizeSend, interpSize, size_send, evalGuard, evalAtom, sizeItem, Send.val, Val.nat, Val.byt, streamOn, topicOn, and_assoc]
-    repeat' split
-    all_goals (first | omega | (simp [*]; try omega))
+theorem getU8_spec {b r : Bytes} {x : Nat} (h : getU8 b = some (x, r)) : x < 256 ∧ b.length = r.length + 1 := by
+  cases b with
+  | nil => simp [getU8] at h
+  | cons a t =>
+    simp only [getU8, Option.some.injEq, Prod.mk.injEq] at h
+    obtain ⟨rfl, rfl⟩ := h
+    exact ⟨a.toNat_lt, rfl⟩
+
+theorem getU16_spec {b r : Bytes} {x : Nat} (h : getU16 b = some (x, r)) : x < 65536 ∧ b.length = r.length + 2 := by
+  match b, h with
+  | a :: c :: t, h =>
+    simp only [getU16, Option.some.injEq, Prod.mk.injEq] at h
+    obtain ⟨rfl, rfl⟩ := h
+    have := a.toNat_lt; have := c.toNat_lt
+    exact ⟨by omega, rfl⟩
+
+theorem getU32_spec {b r : Bytes} {x : Nat} (h : getU32 b = some (x, r)) :
+    x < 4294967296 ∧ b.length = r.length + 4 := by
+  match b, h with
+  | a :: c :: d :: e :: t, h =>
+    simp only [getU32, Option.some.injEq, Prod.mk.injEq] at h
+    obtain ⟨rfl, rfl⟩ := h
+    have := a.toNat_lt; have := c.toNat_lt; have := d.toNat_lt; have := e.toNat_lt
+    exact ⟨by omega, rfl⟩
+
+theorem getU64_spec {b r : Bytes} {x : Nat} (h : getU64 b = some (x, r)) :
+    x < 18446744073709551616 ∧ b.length = r.length + 8 := by
+  match b, h with
+  | a :: c :: d :: e :: f :: g :: i :: j :: t, h =>
+    simp only [getU64, Option.some.injEq, Prod.mk.injEq] at h
+    obtain ⟨rfl, rfl⟩ := h
+    have := a.toNat_lt; have := c.toNat_lt; have := d.toNat_lt; have := e.toNat_lt
+    have := f.toNat_lt; have := g.toNat_lt; have := i.toNat_lt; have := j.toNat_lt
+    exact ⟨by omega, rfl⟩
+
+theorem getStr_spec {b r s : Bytes} (h : getStr b = some (s, r)) :
+    s.length ≤ 32767 ∧ b.length = r.length + s.length + 2 := by
+  unfold getStr at h
+  cases h16 : getU16 b with
+  | none => simp [h16] at h
+  | some pr =>
+    obtain ⟨n, t⟩ := pr
+    have hs := getU16_spec h16
+    simp only [h16, maxInt16] at h
+    by_cases h1 : n > 32767
+    · simp [h1] at h
+    · by_cases h2 : t.length < n
+      · simp [h1, h2] at h
+      · simp only [h1, h2, if_false, Option.some.injEq, Prod.mk.injEq] at h
+        obtain ⟨rfl, rfl⟩ := h
+        simp only [List.length_take, List.length_drop]
+        omega
+
+theorem getSeq_spec {v : Nat} {b r : Bytes} {x : Nat} (h : getSeq v b = some (x, r)) :
+    seqOk v x ∧ b.length = r.length + seqSize v := by
+  unfold getSeq at h
+  unfold seqOk seqSize
+  by_cases hv : v ≤ legacyMessageSeqVersion
+  · simp only [hv, if_true] at h ⊢
+    exact getU32_spec h
+  · simp only [hv, if_false] at h ⊢
+    exact getU64_spec h
+
+end WK.C22
+
+namespace WK.C22
+theorem decDisconnect_inv {h : Flags} {b : Bytes} {f : Frame} (hd : decDisconnect h b = some f) :
+    FieldsOk 0 f ∧ bodySize 0 f ≤ b.length := by
+  simp only [decDisconnect, bind, Option.bind_eq_some_iff, pure, Option.some.injEq, Prod.exists] at hd
+  obtain ⟨x1, r1, h1, x2, r2, h2, rfl⟩ := hd
+  have := getU8_spec h1; have := getStr_spec h2
+  simp [FieldsOk, bodySize, sizeDisconnect, u8, strOk, maxInt16]
+  omega
+end WK.C22
